@@ -47,7 +47,7 @@ let file f =
     (attrs f.f_attrs) (String.concat " " (List.map defn f.f_defs))
 let diag_name = function
   | PdDocOnModule -> "doc-on-module" | PdDocOnParam -> "doc-on-parameter" | PdSmallTuple -> "E011" | PdInvalidInt bse -> "E004:" ^ string_of_n bse
-  | PdIntOverflow -> "E003" | PdTagBounds -> "E012"
+  | PdIntOverflow -> "E003" | PdTagBounds -> "E012" | PdModuleRequired -> "module-required"
 let lexerr_name = function LxUnknownSymbol s -> "unknownsymbol:" ^ hex_of_codes s | LxUnterminatedString -> "unterminatedstring" | LxUnterminatedBlockComment -> "unterminatedblockcomment"
 let show = function
   | POk_ (f, s) -> "ok " ^ file f ^ " | diags " ^ String.concat " " (List.map (fun (d, s) -> diag_name d ^ "@" ^ sp s) s.ps_diags)
